@@ -365,7 +365,6 @@ class LogicalFile:
         parent = self.physical_file._eflr_sets.get_or_make_set(
             eflr_types.AxisSet, set_name=set_name
         )
-        self._eflr_sets.try_add_set(parent)
 
         ax = eflr_types.AxisItem(
             name=name,
@@ -375,6 +374,7 @@ class LogicalFile:
             parent=parent,
             origin_reference=origin_reference or self.default_origin_reference,
         )
+        self._eflr_sets.try_add_set(parent)  # only now: a rejected call must leave no trace
 
         return ax
 
@@ -438,7 +438,6 @@ class LogicalFile:
         parent = self.physical_file._eflr_sets.get_or_make_set(
             eflr_types.CalibrationSet, set_name=set_name
         )
-        self._eflr_sets.try_add_set(parent)
 
         c = eflr_types.CalibrationItem(
             name=name,
@@ -451,6 +450,7 @@ class LogicalFile:
             parent=parent,
             origin_reference=origin_reference or self.default_origin_reference,
         )
+        self._eflr_sets.try_add_set(parent)  # only now: a rejected call must leave no trace
 
         return c
 
@@ -518,7 +518,6 @@ class LogicalFile:
         parent = self.physical_file._eflr_sets.get_or_make_set(
             eflr_types.CalibrationCoefficientSet, set_name=set_name
         )
-        self._eflr_sets.try_add_set(parent)
 
         c = eflr_types.CalibrationCoefficientItem(
             name=name,
@@ -530,6 +529,7 @@ class LogicalFile:
             parent=parent,
             origin_reference=origin_reference or self.default_origin_reference,
         )
+        self._eflr_sets.try_add_set(parent)  # only now: a rejected call must leave no trace
 
         return c
 
@@ -650,7 +650,6 @@ class LogicalFile:
         parent = self.physical_file._eflr_sets.get_or_make_set(
             eflr_types.CalibrationMeasurementSet, set_name=set_name
         )
-        self._eflr_sets.try_add_set(parent)
 
         m = eflr_types.CalibrationMeasurementItem(
             name=name,
@@ -672,6 +671,7 @@ class LogicalFile:
             parent=parent,
             origin_reference=origin_reference or self.default_origin_reference,
         )
+        self._eflr_sets.try_add_set(parent)  # only now: a rejected call must leave no trace
 
         return m
 
@@ -744,8 +744,6 @@ class LogicalFile:
             eflr_types.ChannelSet, set_name=set_name
         )
 
-        self._eflr_sets.try_add_set(parent)
-
         ch = eflr_types.ChannelItem(
             name,
             long_name=long_name,
@@ -762,6 +760,7 @@ class LogicalFile:
             parent=parent,
             origin_reference=origin_reference or self.default_origin_reference,
         )
+        self._eflr_sets.try_add_set(parent)  # only now: a rejected call must leave no trace
 
         if data is not None:
             self._data_dict[ch.dataset_name] = data
@@ -819,7 +818,6 @@ class LogicalFile:
         parent = self.physical_file._eflr_sets.get_or_make_set(
             eflr_types.CommentSet, set_name=set_name
         )
-        self._eflr_sets.try_add_set(parent)
 
         c = eflr_types.CommentItem(
             name=name,
@@ -827,6 +825,7 @@ class LogicalFile:
             parent=parent,
             origin_reference=origin_reference or self.default_origin_reference,
         )
+        self._eflr_sets.try_add_set(parent)  # only now: a rejected call must leave no trace
 
         return c
 
@@ -885,7 +884,6 @@ class LogicalFile:
         parent = self.physical_file._eflr_sets.get_or_make_set(
             eflr_types.ComputationSet, set_name=set_name
         )
-        self._eflr_sets.try_add_set(parent)
 
         c = eflr_types.ComputationItem(
             name=name,
@@ -899,6 +897,7 @@ class LogicalFile:
             parent=parent,
             origin_reference=origin_reference or self.default_origin_reference,
         )
+        self._eflr_sets.try_add_set(parent)  # only now: a rejected call must leave no trace
 
         return c
 
@@ -992,7 +991,6 @@ class LogicalFile:
         parent = self.physical_file._eflr_sets.get_or_make_set(
             eflr_types.EquipmentSet, set_name=set_name
         )
-        self._eflr_sets.try_add_set(parent)
 
         eq = eflr_types.EquipmentItem(
             name=name,
@@ -1016,6 +1014,7 @@ class LogicalFile:
             parent=parent,
             origin_reference=origin_reference or self.default_origin_reference,
         )
+        self._eflr_sets.try_add_set(parent)  # only now: a rejected call must leave no trace
 
         return eq
 
@@ -1114,7 +1113,6 @@ class LogicalFile:
         parent = self.physical_file._eflr_sets.get_or_make_set(
             eflr_types.FrameSet, set_name=set_name
         )
-        self._eflr_sets.try_add_set(parent)
 
         fr = eflr_types.FrameItem(
             name,
@@ -1129,6 +1127,7 @@ class LogicalFile:
             parent=parent,
             origin_reference=origin_reference or self.default_origin_reference,
         )
+        self._eflr_sets.try_add_set(parent)  # only now: a rejected call must leave no trace
 
         return fr
 
@@ -1163,7 +1162,6 @@ class LogicalFile:
         parent = self.physical_file._eflr_sets.get_or_make_set(
             eflr_types.GroupSet, set_name=set_name
         )
-        self._eflr_sets.try_add_set(parent)
 
         g = eflr_types.GroupItem(
             name=name,
@@ -1175,6 +1173,7 @@ class LogicalFile:
             ),
             origin_reference=origin_reference or self.default_origin_reference,
         )
+        self._eflr_sets.try_add_set(parent)  # only now: a rejected call must leave no trace
 
         return g
 
@@ -1253,7 +1252,6 @@ class LogicalFile:
         parent = self.physical_file._eflr_sets.get_or_make_set(
             eflr_types.LongNameSet, set_name=set_name
         )
-        self._eflr_sets.try_add_set(parent)
 
         ln = eflr_types.LongNameItem(
             name=name,
@@ -1275,6 +1273,7 @@ class LogicalFile:
             parent=parent,
             origin_reference=origin_reference or self.default_origin_reference,
         )
+        self._eflr_sets.try_add_set(parent)  # only now: a rejected call must leave no trace
 
         return ln
 
@@ -1312,7 +1311,6 @@ class LogicalFile:
         parent = self.physical_file._eflr_sets.get_or_make_set(
             eflr_types.MessageSet, set_name=set_name
         )
-        self._eflr_sets.try_add_set(parent)
 
         m = eflr_types.MessageItem(
             name=name,
@@ -1326,6 +1324,7 @@ class LogicalFile:
             parent=parent,
             origin_reference=origin_reference or self.default_origin_reference,
         )
+        self._eflr_sets.try_add_set(parent)  # only now: a rejected call must leave no trace
 
         return m
 
@@ -1366,7 +1365,6 @@ class LogicalFile:
         parent = self.physical_file._eflr_sets.get_or_make_set(
             eflr_types.NoFormatSet, set_name=set_name
         )
-        self._eflr_sets.try_add_set(parent)
 
         nf = eflr_types.NoFormatItem(
             name=name,
@@ -1375,6 +1373,7 @@ class LogicalFile:
             parent=parent,
             origin_reference=origin_reference or self.default_origin_reference,
         )
+        self._eflr_sets.try_add_set(parent)  # only now: a rejected call must leave no trace
 
         return nf
 
@@ -1525,9 +1524,11 @@ class LogicalFile:
         parent = self.physical_file._eflr_sets.get_or_make_set(
             eflr_types.OriginSet, set_name=set_name
         )
-        self._eflr_sets.try_add_set(parent)
 
+        # the origins the logical file will have once 'parent' is registered in it (done below, when the item exists)
         origins: list[eflr_types.OriginItem] = list(self._eflr_sets.get_all_items_for_set_type(eflr_types.OriginSet))
+        if self._eflr_sets[eflr_types.OriginSet].get(set_name) is not parent:
+            origins.extend(parent.get_all_eflr_items())
         new_origin_ref = self.next_available_origin_ref(origin_reference, origins)
         """ origins_refs = [o.origin_reference for o in origins]
         next_available_origin_ref: int = 0
@@ -1569,6 +1570,7 @@ class LogicalFile:
             name_space_version=name_space_version,
             parent=parent,
         )
+        self._eflr_sets.try_add_set(parent)  # only now: a rejected call must leave no trace
 
         if (
             len(list(self._eflr_sets.get_all_items_for_set_type(eflr_types.OriginSet)))
@@ -1633,7 +1635,6 @@ class LogicalFile:
         parent = self.physical_file._eflr_sets.get_or_make_set(
             eflr_types.ParameterSet, set_name=set_name
         )
-        self._eflr_sets.try_add_set(parent)
 
         p = eflr_types.ParameterItem(
             name=name,
@@ -1645,6 +1646,7 @@ class LogicalFile:
             parent=parent,
             origin_reference=origin_reference or self.default_origin_reference,
         )
+        self._eflr_sets.try_add_set(parent)  # only now: a rejected call must leave no trace
 
         return p
 
@@ -1750,7 +1752,6 @@ class LogicalFile:
         parent = self.physical_file._eflr_sets.get_or_make_set(
             eflr_types.PathSet, set_name=set_name
         )
-        self._eflr_sets.try_add_set(parent)
 
         p = eflr_types.PathItem(
             name=name,
@@ -1768,6 +1769,7 @@ class LogicalFile:
             parent=parent,
             origin_reference=origin_reference or self.default_origin_reference,
         )
+        self._eflr_sets.try_add_set(parent)  # only now: a rejected call must leave no trace
 
         return p
 
@@ -1826,7 +1828,6 @@ class LogicalFile:
         parent = self.physical_file._eflr_sets.get_or_make_set(
             eflr_types.ProcessSet, set_name=set_name
         )
-        self._eflr_sets.try_add_set(parent)
 
         p = eflr_types.ProcessItem(
             name=name,
@@ -1844,6 +1845,7 @@ class LogicalFile:
             parent=parent,
             origin_reference=origin_reference or self.default_origin_reference,
         )
+        self._eflr_sets.try_add_set(parent)  # only now: a rejected call must leave no trace
 
         return p
 
@@ -1886,7 +1888,6 @@ class LogicalFile:
         parent = self.physical_file._eflr_sets.get_or_make_set(
             eflr_types.SpliceSet, set_name=set_name
         )
-        self._eflr_sets.try_add_set(parent)
 
         sp = eflr_types.SpliceItem(
             name=name,
@@ -1896,6 +1897,7 @@ class LogicalFile:
             parent=parent,
             origin_reference=origin_reference or self.default_origin_reference,
         )
+        self._eflr_sets.try_add_set(parent)  # only now: a rejected call must leave no trace
 
         return sp
 
@@ -1943,7 +1945,6 @@ class LogicalFile:
         parent = self.physical_file._eflr_sets.get_or_make_set(
             eflr_types.ToolSet, set_name=set_name
         )
-        self._eflr_sets.try_add_set(parent)
 
         t = eflr_types.ToolItem(
             name=name,
@@ -1957,6 +1958,7 @@ class LogicalFile:
             parent=parent,
             origin_reference=origin_reference or self.default_origin_reference,
         )
+        self._eflr_sets.try_add_set(parent)  # only now: a rejected call must leave no trace
 
         return t
 
@@ -2029,7 +2031,6 @@ class LogicalFile:
         parent = self.physical_file._eflr_sets.get_or_make_set(
             eflr_types.WellReferencePointSet, set_name=set_name
         )
-        self._eflr_sets.try_add_set(parent)
 
         w = eflr_types.WellReferencePointItem(
             name=name,
@@ -2047,6 +2048,7 @@ class LogicalFile:
             parent=parent,
             origin_reference=origin_reference or self.default_origin_reference,
         )
+        self._eflr_sets.try_add_set(parent)  # only now: a rejected call must leave no trace
 
         return w
 
@@ -2095,7 +2097,6 @@ class LogicalFile:
         parent = self.physical_file._eflr_sets.get_or_make_set(
             eflr_types.ZoneSet, set_name=set_name
         )
-        self._eflr_sets.try_add_set(parent)
 
         z = eflr_types.ZoneItem(
             name=name,
@@ -2108,6 +2109,7 @@ class LogicalFile:
             ),
             origin_reference=origin_reference or self.default_origin_reference,
         )
+        self._eflr_sets.try_add_set(parent)  # only now: a rejected call must leave no trace
 
         return z
 
